@@ -39,6 +39,7 @@ var (
 	mainR, mainW   int
 	mainBuf        [8]byte
 	preemptDensity int
+	hotNum, hotDen int // probability of a pre-emption at a synchronisation point (YieldHot)
 )
 
 //go:norace
@@ -48,6 +49,7 @@ func resetSched() {
 	stepBudget = 0
 	opSteps = 0
 	preemptDensity = 0
+	hotNum, hotDen = 0, 1
 }
 
 // SetStepBudget sets the number of yields one operation may execute (0 = no limit).
@@ -86,6 +88,39 @@ func Yield(site uint32) {
 			next := pick(site)
 			if next != cur {
 				stats.Preemptions++
+			}
+			handoff(next, site)
+		}
+	}
+}
+
+// SetHotPreempt sets the probability num/den with which the scheduler pre-empts at a
+// synchronisation point: a statement that touches package-level state of the library or calls
+// into sync or sync/atomic (the instrumenter marks them with YieldHot before and after). The
+// windows that lazy initialisation, double-checked locking and compare-and-swap protocols leave
+// open are a few statements long and start at exactly such points; uniformly placed pre-emption
+// points find them with a probability that falls with the length of the operation.
+//
+//go:norace
+func SetHotPreempt(num, den int) {
+	if den <= 0 {
+		num, den = 0, 1
+	}
+	hotNum, hotDen = num, den
+}
+
+// YieldHot is Yield at a synchronisation point.
+//
+//go:norace
+func YieldHot(site uint32) {
+	Yield(site)
+	if schedActive {
+		stats.HotPoints++
+		if hotNum > 0 && Chance(SSched, site, hotNum, hotDen) {
+			next := pick(site)
+			if next != cur {
+				stats.Preemptions++
+				stats.HotPreemptions++
 			}
 			handoff(next, site)
 		}
